@@ -35,6 +35,9 @@ def run(ctx):
     kn, qn = T["kind_names"], T["quant_names"]
     ctx.trusted += ["Kani/CBMC (decoder, byte view)", "rustc MIR", "mirsym and its std models", "Decoder contract (C11)", "z3"]
     ctx.assumptions += ["a well-behaved consumer (does not panic itself)", "allocation failure and stack exhaustion are outside"]
+    # dis/main.rs (an anchor of this property too): main's paths from MIR and the built binary on the corpus (C20's machinery)
+    import c20
+    c20.run(ctx)
     rp = Replay()
     special = {"LiteralContextDependentNumber", "PairLiteralIntegerIdRef", "LiteralSpecConstantOpInteger", "PairIdRefLiteralInteger", "PairIdRefIdRef"}
     entries = T["core"]
